@@ -3,6 +3,7 @@ package rules
 import (
 	"fmt"
 	"go/ast"
+	"go/token"
 	"go/types"
 	"sort"
 	"strings"
@@ -189,6 +190,15 @@ func (e *Env) RMapsAllocated() {
 	}
 }
 
+// panicConfirmed: number of explicit panic sites per function read and classified at build time.
+var panicConfirmed = map[string]int{
+	"(*Decorator).DecorateNode": 2, "(*FileRestorer).RestoreFile": 3, "(*fileDecorator).resolvePath": 2, "(*FileRestorer).restoreIdent": 2,
+	"(*fileDecorator).decorateObject": 2, "(*FileRestorer).restoreObject": 2, "(*fileDecorator).link": 2, "(*FileRestorer).restoreNode": 2,
+	"mergeDecorations": 1, "mustUnquote": 2, "Clone": 1, "Walk": 1, "(*application).apply": 2, "Apply": 1, "(*Cursor).Replace": 1,
+	"(*Cursor).Delete": 1, "(*Cursor).InsertAfter": 1, "(*Cursor).InsertBefore": 1, "NewPackage": 1, "(*printer).printf": 1, "(*printer).print": 0,
+	"Fprint": 1, "fprint": 1,
+}
+
 // RPanicInventory: every explicit panic in the packages reachable from parse/print entry points
 // is classified; a new one is reported as undecided.
 func (e *Env) RPanicInventory() {
@@ -218,6 +228,7 @@ func (e *Env) RPanicInventory() {
 		"fprint":                          "debug printer (dst.Print), same as go/ast: recovers its own localError",
 	}
 	n := 0
+	perFunc := map[string][]token.Pos{}
 	for _, path := range []string{load.PkgDst, load.PkgDecorator, load.PkgDstutil, load.PkgGoast, load.PkgGotypes, load.PkgGuess, load.PkgSimple} {
 		pkg := e.Prog.Pkg(path)
 		for _, fd := range load.AllFuncDecls(pkg) {
@@ -237,14 +248,22 @@ func (e *Env) RPanicInventory() {
 					return true
 				}
 				n++
-				name := load.FuncName(fd)
-				if why, ok := classified[name]; ok {
-					e.Run.OK("R-NOPANIC", "panic site in "+name, e.Prog.Pos(call.Pos()), why)
-				} else {
-					e.Run.Undecided("R-NOPANIC", "panic site in "+name, e.Prog.Pos(call.Pos()), "explicit panic in a function that has no classified panic: reachability from Parse/Fprint not decided")
-				}
+				perFunc[load.FuncName(fd)] = append(perFunc[load.FuncName(fd)], call.Pos())
 				return true
 			})
+		}
+	}
+	for _, name := range sortedKeys(perFunc) {
+		sites := perFunc[name]
+		why, ok := classified[name]
+		limit := panicConfirmed[name]
+		switch {
+		case !ok:
+			e.Run.Undecided("R-NOPANIC", "panic sites in "+name, e.Prog.Pos(sites[0]), "explicit panic in a function that has no classified panic: reachability from Parse/Fprint not decided")
+		case len(sites) > limit:
+			e.Run.Undecided("R-NOPANIC", "panic sites in "+name, e.Prog.Pos(sites[len(sites)-1]), fmt.Sprintf("%d explicit panics, %d were classified at build time (%s): the additional one is not decided", len(sites), limit, why))
+		default:
+			e.Run.OK("R-NOPANIC", "panic sites in "+name, e.Prog.Pos(sites[0]), fmt.Sprintf("%d sites: %s", len(sites), why))
 		}
 	}
 	e.Run.Analysed("explicit panic sites", n)
@@ -273,6 +292,8 @@ func init() {
 		e.RCover("restore", e.dstNodeNames(), true)
 		e.RMapsAllocated()
 		e.RPanicInventory()
+		e.RNilFile()
+		e.RIndex()
 		e.RErr(e.pkgs(load.PkgDecorator), 80)
 	})
 }
